@@ -845,6 +845,86 @@ func runC12(c *Ctx) {
 		c.Eval(true, op)
 	})
 
+	// B2. the same orders carried by a Script (task.Script, client handler muxHandleScript): the client
+	// applies the settings Tasklet, queues a SvResync for the Script's Job and answers; the server
+	// absorbs the SvResync while the Job is pending. Other Tasklets around it may fail, with and
+	// without stop-on-error. Whenever the client applied the order, the server's view equals the
+	// client's afterwards.
+	c.Cases("script", c.N(600, 6000), func(r *Rng, i int) {
+		srvD := c12Gen(r, false)
+		srvD.client, srvD.closing = false, false
+		cliD := c12Gen(r, false)
+		cliD.client, cliD.closing = true, false
+		srv, cli := srvD.build(), cliD.build().VerifC12WithQueue()
+		stop := r.Bool()
+		sc := task.NewScript(stop, r.Bool())
+		var order *com.Packet
+		what := ""
+		switch i % 3 {
+		case 0:
+			d := time.Duration(1+r.Intn(3600000)) * time.Millisecond
+			order, what = task.Duration(d, r.Intn(101)), "duration"
+		case 1:
+			order, what = task.KillDate(time.Unix(4102444800+int64(r.Intn(100000)), 0)), "killdate"
+		case 2:
+			order, what = task.WorkHours(uint8(1+r.Intn(126)), uint8(r.Intn(12)), uint8(r.Intn(60)), uint8(12+r.Intn(12)), uint8(r.Intn(60))), "workhours"
+		}
+		bad := func() *com.Packet { return &com.Packet{ID: 0xF3} } // no Task mapping: fails
+		shape := r.Intn(5)                                        // where a failing Tasklet sits relative to the order
+		applied := true
+		switch shape {
+		case 0:
+			sc.Append(order)
+		case 1: // failing Tasklet AFTER the order
+			sc.Append(order, bad())
+		case 2: // failing Tasklet BEFORE the order
+			sc.Append(bad(), order)
+			applied = !stop
+		case 3:
+			sc.Append(order, task.Pwd(), bad())
+		case 4:
+			sc.Append(task.Pwd(), order)
+		}
+		input := map[string]interface{}{"order": what, "shape": shape, "stop_on_error": stop, "server": srvD.tokens(), "client": cliD.tokens()}
+		n, err := sc.Packet()
+		if err != nil {
+			c.Fail("script", "script-build-error", err.Error(), input)
+			return
+		}
+		j, err := srv.Task(n)
+		if err != nil || j == nil {
+			c.Fail("script", "script-task-error", fmt.Sprint(err), input)
+			return
+		}
+		q := srv.VerifC12PopSend()
+		if q == nil {
+			c.Fail("script", "script-no-packet", "Task queued no packet", input)
+			return
+		}
+		w := &com.Packet{ID: c2.RvResult, Job: q.Job}
+		copy(w.Device[:], cliD.id)
+		herr := c2.VerifC12Script(cli, q, w)
+		if herr != nil {
+			w.Clear()
+			w.Flags |= com.FlagError
+			w.WriteString(herr.Error())
+		}
+		// what the client sends: first whatever it queued (the SvResync), then the result
+		for p := cli.VerifC12PopSend(); p != nil; p = cli.VerifC12PopSend() {
+			srv.VerifC12Receive(p)
+		}
+		srv.VerifC12Result(w)
+		srv2, cli2 := c12Dump(srv, srvD), c12Dump(cli, cliD)
+		changed := cli2.tokens() != cliD.tokens()
+		c.Count(fmt.Sprintf("script:shape%d:stop=%v:applied=%v", shape, stop, applied))
+		if applied {
+			c12CheckSettings(c, "script-view:"+what, cli2, srv2, input)
+		} else if changed {
+			c.Fail("script", "script:order-after-failed-tasklet-applied", "stop-on-error Script applied a Tasklet that follows a failed one", input)
+		}
+		c.Eval(true, fmt.Sprint("script", i, what, shape, stop))
+	})
+
 	// C. SvResync: kind byte + info of that kind, absorbed by receiveSingle when the Job is known.
 	c.Cases("resync", c.N(600, 4000), func(r *Rng, i int) {
 		t := []uint8{c2.VerifC12InfoRefresh, c2.VerifC12InfoSync}[i%2]
